@@ -99,6 +99,8 @@ def run_case(ctx, case):
             if r[0] != "ok" or r[1] != want:
                 rec.violation("index form %s does not select rows of the same table" % name, case, u=str(u), observed=str(r), expected=ser(want))
         # sequences of parameters: one row per function, one column per node
+        us = list(us)
+        ctx["rng"].shuffle(us)          # the nodes of a sequence call come in no particular order
         r = impl(lambda: f[:, p](list(us)))
         if r[0] == "ok":
             got = tuple(tuple(frac(x) for x in row) for row in r[1])
